@@ -463,7 +463,13 @@ func (x *Exec) specCall(s *State, e *CExpr, sc *specCtx) *Value {
 			s.Assume(Ge(b, Zero))
 			return intV(b)
 		case "modaddr":
-			return intV(modAddr(ev(0).T))
+			a := ev(0).T
+			if a.IsInt() {
+				if name, ok := x.Pr.StrOf(a.Val.Int64()); ok && !x.Pr.isModuleName(name) {
+					x.fail(token.NoPos, "contract: modaddr(%q): no module of that name (ModuleName constants: %v)", name, x.Pr.moduleNameList())
+				}
+			}
+			return intV(modAddr(a))
 		case "height":
 			return intV(x.specWorld(s).Height)
 		case "blocktime":
